@@ -20,14 +20,16 @@ type World struct {
 	NFS  *absnfs.AbsfsNFS
 	Srv  *absnfs.Server
 	Port int
-	xid  uint32
-	// Replies counts decoded replies by "proc/status" for evidence.
+	xid  simrt.Counter
+	// NCalls counts replies read.
 	NCalls int
 }
 
 // NewWorld creates a world with an empty backend.
 func NewWorld(o *Outcome) *World {
-	return &World{O: o, FS: simfs.New(), xid: 1000}
+	w := &World{O: o, FS: simfs.New()}
+	w.xid.Store(1000)
+	return w
 }
 
 // Start creates the AbsfsNFS handler and a record-marking server on an
@@ -129,8 +131,7 @@ func (e *ErrNoReply) Error() string { return "no reply: " + e.Cause.Error() }
 
 // RawCall sends one call and reads one reply record (no decoding of results).
 func (c *Client) RawCall(prog, vers, proc uint32, args []byte) (*nfsclient.Reply, error) {
-	c.W.xid++
-	call := nfsclient.Call{XID: c.W.xid, Prog: prog, Vers: vers, Proc: proc, Cred: c.Cred.auth(), Verf: nfsclient.AuthNone(), Args: args}
+	call := nfsclient.Call{XID: uint32(c.W.xid.Add(1)), Prog: prog, Vers: vers, Proc: proc, Cred: c.Cred.auth(), Verf: nfsclient.AuthNone(), Args: args}
 	return c.Exchange(call.XID, nfsclient.Frame(call.Encode(), nil), prog, vers, proc)
 }
 
@@ -168,11 +169,11 @@ func (c *Client) ReadReply(xid uint32, prog, vers, proc uint32) (*nfsclient.Repl
 		c.Dead = true
 		return nil, &ErrNoReply{err}
 	}
-	c.W.NCalls++
+	c.W.bumpCalls()
 	c.last = time.Now()
 	rep, derr := nfsclient.DecodeReply(rec)
 	o := c.W.O
-	o.Checks++
+	o.Tick()
 	if derr != nil {
 		o.Vio("C14.rpc-reply-malformed", fmt.Sprintf("prog=%d,proc=%d", prog, proc), "reply to prog=%d vers=%d proc=%d does not decode as RFC 1831 reply: %v; bytes=%x", prog, vers, proc, derr, trunc(rec, 96))
 		return nil, derr
@@ -205,7 +206,7 @@ func (c *Client) NFS(proc uint32, args []byte) (any, *nfsclient.Reply, error) {
 		return nil, rep, nil
 	}
 	res, derr := nfsclient.DecodeNFS(proc, rep.Results)
-	c.W.O.Checks++
+	c.W.O.Tick()
 	if derr != nil {
 		c.W.O.Vio("C14.nfs-result-malformed", shapeFacts(proc, rep.Results), "NFS proc %d result does not decode as its RFC 1813 result type: %v; bytes=%x", proc, derr, trunc(rep.Results, 128))
 		return nil, rep, derr
@@ -237,7 +238,7 @@ func (c *Client) Mount(path string) ([]byte, *nfsclient.MntRes, error) {
 		return nil, nil, fmt.Errorf("MNT not accepted: stat=%d accept=%d", rep.Stat, rep.AcceptStat)
 	}
 	r, derr := nfsclient.DecodeMount(3, 1, rep.Results)
-	c.W.O.Checks++
+	c.W.O.Tick()
 	if derr != nil {
 		c.W.O.Vio("C14.mount-result-malformed", "proc=1", "MNT result malformed: %v; bytes=%x", derr, trunc(rep.Results, 64))
 		return nil, nil, derr
@@ -329,3 +330,6 @@ func u32p(v uint32) *uint32 { return &v }
 func u64p(v uint64) *uint64 { return &v }
 
 func eqBytes(a, b []byte) bool { return bytes.Equal(a, b) }
+
+//go:norace
+func (w *World) bumpCalls() { w.NCalls++ }
